@@ -48,6 +48,8 @@ def records_of(obs: dict, prog: dict, pid) -> list[dict]:
         if b is None:
             continue
         b.pop("nested", None)
+        decl = [d for d in prog["decls"] if d["k"] == "field" and (d["on"], d["name"]) == (on, name)]
+        b["vars"] = [{"name": v["name"], "type": v["type"]} for v in (decl[0].get("vars", []) if decl else [])]
         out.append({"id": pid, "key": k, "E": b})
     return out
 
@@ -61,7 +63,14 @@ def classify(x: dict) -> str:
     key = r.get("key", [])
     has_args = "args" if len(key) >= 2 and key[1] else "noargs"
     cond = "cond" if "$cond" in path else "plain"
-    return f"{r['why']}|{has_args}|{cond}"
+    # the reader's key has an OBJECT-valued argument: a different defect class (variables inside object arguments)
+    obj = "|object-arg" if len(key) >= 2 and any(isinstance(a, list) and len(a) == 2 and isinstance(a[1], list) and a[1][:1] == ["json"]
+                                                  for a in key[1]) else ""
+    # ... and it only fails when a variable inside the object is null: the runtime's own inconsistency
+    # (generateChildVariableMap omits the key, getStoreKeyChunkForArgumentValue writes the string 'null')
+    if obj and x.get("nullVars"):
+        obj += "|null-variable"
+    return f"{r['why']}|{has_args}|{cond}{obj}"
 
 
 def signature(b: dict) -> list[tuple[str, str]]:
@@ -87,10 +96,12 @@ SCOPES = {
     "quick": [
         ("chain", dict(MaxCard=2, MaxUses=1, CardChoice={3, 4, 5, 8, 9, 10, 13}, HomeChoice={1, 2, 3}, Defaults={0, 1}, Mutations={0})),
         ("abstract", dict(MaxCard=1, MaxUses=2, CardChoice={1, 3, 7, 11, 12}, HomeChoice={4, 5, 6, 7, 8}, Defaults={0}, Mutations={1})),
+        ("objects", dict(MaxCard=1, MaxUses=2, CardChoice={1, 4}, HomeChoice={1, 9, 10}, Defaults={0}, Mutations={0, 2, 3})),
     ],
     "thorough": [
         ("chain", dict(MaxCard=3, MaxUses=2, CardChoice=ALL_CARD, HomeChoice={1, 2, 3}, Defaults={0, 1}, Mutations={0})),
         ("abstract", dict(MaxCard=2, MaxUses=2, CardChoice=ALL_CARD, HomeChoice={3, 4, 5, 6, 7, 8}, Defaults={0, 1}, Mutations={0, 1})),
+        ("objects", dict(MaxCard=2, MaxUses=2, CardChoice={1, 3, 4, 8}, HomeChoice={1, 2, 9, 10}, Defaults={0, 1}, Mutations={0, 2, 3})),
     ],
 }
 
